@@ -172,6 +172,9 @@ func (d SuDate) Plus(yr int, mon int, day int, hr int, min int, sec int, ms int)
 
 func NormalizeDate(yr int, mon int, day int, hr int, min int, sec int, ms int) SuDate {
 	// use UTC to avoid timezone daylight savings issues
+	// carry whole seconds first so that ms*1000000 cannot overflow int64
+	sec += ms / 1000
+	ms %= 1000
 	t := time.Date(yr, time.Month(mon), day, hr, min, sec, ms*1000000, time.UTC)
 	return FromGoTime(t)
 }
